@@ -12,7 +12,11 @@ only = None
 if '-p' in sys.argv:
     only = sys.argv[sys.argv.index('-p') + 1]
     args.remove(only)
+import selftest
 for d in args:
+    if os.path.exists(os.path.join(d, 'patch.diff')):      # a benign/<id> or seeded/<id> directory: use the cached facts of that patch
+        v = {'kind': 'diff', 'patch': os.path.abspath(os.path.join(d, 'patch.diff'))}
+        d = os.path.join(selftest.VCACHE, selftest._variant_key(v, selftest._repo_state()))
     P = facts.load(sorted(glob.glob(os.path.join(d, '*.jsonl'))))
     il = P.inline_log
     fired = []
